@@ -318,6 +318,20 @@ def gen_cases(ctx, tabs):
             for val, cls in values_for(ty, tabs, rng):
                 cases.append(dict(op="set", struct=sname, prefix="p", init=[], opts=["p.%s=%s" % (".".join(path), val)],
                                   kind="value", leaf=[(".".join(path), ty, val, cls)]))
+    # a key that continues past a scalar leaf ("p.stop_crit.value=FPRNorm") with a VALID value: every enum leaf of every struct, and one leaf
+    # of every other type per struct (both tiers)
+    for sname in structs:
+        seen = set()
+        for path, ty in tabs.leaf_paths(sname):
+            if ty["k"] != "enum" and ty["k"] in seen:
+                continue
+            seen.add(ty["k"])
+            val = simple_ok_value(ty, tabs, rng)
+            if val is None:
+                continue
+            for sub in ("value", "x", "0"):
+                cases.append(dict(op="set", struct=sname, prefix="p", init=[], opts=["p.%s.%s=%s" % (".".join(path), sub, val)], kind="key",
+                                  keycls="bad:index-scalar", variant="index-scalar"))
     # malformed keys
     for sname in structs:
         leaves = tabs.leaf_paths(sname)
